@@ -378,7 +378,7 @@ def run(ctx):
     S2, S3 = "MaxStages = 2", "MaxStages = 3"
     if ctx.quick:
         plans = [("s2a1-full", {"Lite = TRUE": "Lite = FALSE"}, None, 200),
-                 ("sim-s3a3", {S2: S3, "MaxAcc = 1": "MaxAcc = 3", "Lite = TRUE": "Lite = FALSE"}, (dict(num=40), 9), 200)]
+                 ("sim-s3a3", {S2: S3, "MaxAcc = 1": "MaxAcc = 3", "Lite = TRUE": "Lite = FALSE"}, (dict(num=30), 9), 200)]
     else:
         plans = [("s2a2", {"MaxAcc = 1": "MaxAcc = 2"}, None, 5000),
                  ("s3a1", {S2: S3}, None, 5000),
